@@ -57,6 +57,8 @@ func main() {
 		os.Exit(ec.Main(os.Args[2:]))
 	case "rt":
 		os.Exit(rt.Main(os.Args[2:]))
+	case "ag-runmain":
+		os.Exit(ag.RunMain(os.Args[2:]))
 	case "ag":
 		os.Exit(ag.Main(os.Args[2:]))
 	case "rl":
